@@ -122,6 +122,17 @@ hostname", at the hostname of this netloc -/
 def SplitRejoins (netloc : Str) : Prop :=
   ∀ d s, splitSuffix (pyHostname netloc) = some (d, s) → rejoin d s = lower (pyHostname netloc)
 
+/-- the form the theorems use: the suffix parts re-join to the lower-cased host of the netloc
+(follows from `SplitRejoins` on the grammar: `Props.C12.splitRejoins_of_c08`) -/
+def SplitLaw (n : Str) : Prop :=
+  ∀ d s, splitSuffixParsed splitSuffix n = some (d, s) → rejoin d s = lower (specHost n)
+
+/-- both hosts have the same public suffix (or none has one) -/
+def SameSuffixSplit (nu nv : Str) : Prop :=
+  (splitSuffixParsed splitSuffix nu = none ∧ splitSuffixParsed splitSuffix nv = none) ∨
+  ∃ du dv s, splitSuffixParsed splitSuffix nu = some (du, s) ∧
+    splitSuffixParsed splitSuffix nv = some (dv, s)
+
 end
 
 /-! ## C13: the web hierarchy -/
